@@ -28,7 +28,8 @@ NROWS = 6
 CONSTS = [0, 1, 2, 3, 5, -1, 2.5, 10, 100, -4, 7, 0.5, 1000000, 250000.5]
 ODD_CONSTS = ['a', 'b', 'x', '1', '', True, False, None, None]
 SET_VALUES = [0, 1, 2, 3, -1, 2.5, 10, 42, 0.0, 1.0, 7, -7.5, 100,
-              True, False, None, None, '', 'a', 'zz', '5', 0, 1]
+              True, False, None, None, '', 'a', 'zz', '5', 0, 1, 'A', 'Zz',
+              'a', 'ZZ']
 
 
 def q(sheet):
@@ -128,7 +129,7 @@ def specs(draw, max_formulas=14, with_arrays=True, with_names=True,
                 ranges.append(full)
             return text, shape
 
-        kind = draw(st.integers(0, 34))
+        kind = draw(st.integers(0, 35))
         if focus == 'context' and kind % 2:
             kind = draw(st.integers(28, 33 if with_computed else 32))
         if kind == 0:
@@ -178,6 +179,13 @@ def specs(draw, max_formulas=14, with_arrays=True, with_names=True,
                 ranges.append(full)
             f = draw(st.sampled_from(['SUM', 'COUNT', 'MAX']))
             return f'={f}({q(INSHEET)}!{form})+{ref()}'
+        if kind == 35:
+            # a text result with a leading character that file formats and
+            # spreadsheets treat specially (apostrophe = Excel's text prefix)
+            lead = draw(st.sampled_from(["'", "''", ' ', '#', '"', '- ', '@',
+                                         '{', '[', '!', '%', '&', '*', '?']))
+            lit = lead.replace('"', '""')
+            return f'="{lit}"&{ref()}&"{lit}"'
         if kind == 34 and with_unbounded:
             # the bounded twin of what an unbounded reference is bound to
             # (the used area of the input sheet is A1:B3)
